@@ -853,6 +853,10 @@ int __wrap_sigaction(int sig, const struct sigaction *act, struct sigaction *old
 }
 /* signal(): BSD semantics as in glibc - SA_RESTART, empty mask; the old handler alone is returned (flags and mask are lost) */
 extern void (*__real_signal(int, void (*)(int)))(int);
+static void (*sysv_signal_(int sig, void (*h)(int)))(int);
+void (*__wrap___sysv_signal(int sig, void (*h)(int)))(int) { return sysv_signal_(sig, h); }
+void (*__wrap_sysv_signal(int sig, void (*h)(int)))(int) { return sysv_signal_(sig, h); }
+void (*__wrap_bsd_signal(int sig, void (*h)(int)))(int);
 void (*__wrap_signal(int sig, void (*h)(int)))(int)
 {
   if (!K || !K->in_api) return __real_signal(sig, h);   /* the harness's own use */
@@ -927,7 +931,8 @@ int __wrap_clock_gettime(clockid_t c, struct timespec *ts)
 
 /* FILE* registry: fake FILE objects for REDIRECT_FILE; stdin/stdout/stderr map to 0/1/2 as glibc does */
 static char fake_files[SK_MAXFD];
-void *sk_file_for_fd(int fd) { return &fake_files[fd]; }
+/* (the standard descriptors are named by the C library's own stdin / stdout / stderr objects, as a caller would) */
+void *sk_file_for_fd(int fd) { return fd == 0 ? (void *) stdin : fd == 1 ? (void *) stdout : fd == 2 ? (void *) stderr : (void *) &fake_files[fd]; }
 int __wrap_fileno(FILE *f)
 {
   if (f == stdin) return 0;
@@ -937,6 +942,16 @@ int __wrap_fileno(FILE *f)
   if (c >= fake_files && c < fake_files + SK_MAXFD) return (int) (c - fake_files);
   return __real_fileno(f);
 }
+
+/* signal() under -std=c99 is System V signal(): one-shot handler, no SA_RESTART, empty mask */
+static void (*sysv_signal_(int sig, void (*h)(int)))(int)
+{
+  struct sigaction a, o;
+  memset(&a, 0, sizeof a); a.sa_handler = h; a.sa_flags = (int) (SA_RESETHAND | SA_NODEFER); sigemptyset(&a.sa_mask);
+  if (__wrap_sigaction(sig, &a, &o) != 0) return SIG_ERR;
+  return o.sa_handler;
+}
+void (*__wrap_bsd_signal(int sig, void (*h)(int)))(int) { return __wrap_signal(sig, h); }
 
 /* ---- directory listing of the process's own descriptors (/proc/self/fd, /dev/fd): a common way to find what to close ---- */
 struct sk_dir { int magic; int fd; int n, pos; int ents[SK_MAXFD]; struct dirent de; };
